@@ -509,6 +509,8 @@ def to_int(x):
 
 
 def getitem(interp, obj, idx, node=None):
+    if hasattr(obj, 'py_getitem'):
+        return obj.py_getitem(interp, idx, node)
     if isinstance(obj, (tuple, list)) or isinstance(obj, PyList):
         items = obj.items if isinstance(obj, PyList) else obj
         if isinstance(idx, int):
@@ -677,6 +679,8 @@ def list_insert(interp, lst, idx, v, node=None):
 
 def contains(interp, container, x, node=None):
     """x in container  -> SBool / bool"""
+    if hasattr(container, 'py_contains'):
+        return container.py_contains(interp, x, node)
     if isinstance(container, SDict):
         return container.contains(interp, x)
     if isinstance(container, (tuple, list, PyList)):
